@@ -32,8 +32,8 @@
     Full statements: every design RandomGen accepts; proved for [Frag.frag1]
     (see Properties/C04.v; it contains the earlier [Frag.frag0]) - hence
     [_partial].  [_frag2]: the same with weights ([Frag.frag2], see
-    Properties/C04.v and the note on [enumerates] in Properties/C05.v): stated
-    for every enumerator [en] the model builds whose key list is defined.
+    Properties/C04.v): stated for the enumerator [en] the model builds (it always
+    builds one, [C05_enumerates]).
     [C06_keys_count] is [keys_count] for EVERY design: whatever enumerator the
     model builds (derived factors, weights, several crossings, preambles, complex
     windows) and whatever key list it lists for it, the keys are pairwise
@@ -129,20 +129,20 @@ Proof.
 Qed.
 
 (** with weights (fragment [Frag.frag2]) *)
-Theorem C06_accepted_exact_frag2 : forall (fb : flat), frag2 fb = true -> enumerates fb -> fl_errors_fail fb = false ->
+Theorem C06_accepted_exact_frag2 : forall (fb : flat), frag2 fb = true -> fl_errors_fail fb = false ->
   NoDup (map (cand_fseq fb) (accepted_keys fb)) /\
   (forall s, In s (map (cand_fseq fb) (accepted_keys fb)) <-> valid_b (code_sem fb) s = true).
 Proof. exact f2_accepted_exact. Qed.
 Print Assumptions C06_accepted_exact_frag2.
 
 Theorem C06_keys_count_frag2 : forall (fb : flat), frag2 fb = true -> forall (en : enumerator),
-  make_enumerator fb = ROk en -> (exists ks, all_keys fb en = ROk ks) -> fl_errors_fail fb = false ->
+  make_enumerator fb = ROk en -> fl_errors_fail fb = false ->
   NoDup (keys_of fb) /\ Z.of_nat (length (keys_of fb)) = possible_keys fb en.
 Proof. exact f2_keys_count. Qed.
 Print Assumptions C06_keys_count_frag2.
 
 Theorem C06_count_exact_frag2 : forall (fb : flat), frag2 fb = true -> forall (en : enumerator),
-  make_enumerator fb = ROk en -> (exists ks, all_keys fb en = ROk ks) ->
+  make_enumerator fb = ROk en ->
   fl_errors_fail fb = false -> rejection_free fb = true ->
   NoDup (map (cand_fseq fb) (keys_of fb)) /\
   (forall s, In s (map (cand_fseq fb) (keys_of fb)) <-> valid_b (code_sem fb) s = true) /\
@@ -150,7 +150,7 @@ Theorem C06_count_exact_frag2 : forall (fb : flat), frag2 fb = true -> forall (e
 Proof. exact f2_count_exact. Qed.
 Print Assumptions C06_count_exact_frag2.
 
-Theorem C06_exhaust_frag2 : forall (fb : flat), frag2 fb = true -> enumerates fb -> fl_errors_fail fb = false ->
+Theorem C06_exhaust_frag2 : forall (fb : flat), frag2 fb = true -> fl_errors_fail fb = false ->
   forall (requested : nat) (draws res : list key),
   (forall k, In k draws -> In k (keys_of fb)) ->
   sample_loop key key_eqb (key_accepted fb) (length (keys_of fb)) requested draws nil nil = Some res ->
